@@ -4,11 +4,13 @@ import IdpyVerif.Driver.Prov
 import IdpyVerif.Driver.Msg
 import IdpyVerif.Driver.Redirect
 import IdpyVerif.Driver.Pkce
+import IdpyVerif.Driver.ClientAuthn
 open Idpy
 
 structure DState where
   sdb : SessionDB.DB := []
   prov : Driver.Prov.DS := {}
+  ca : Driver.ClientAuthn.DS := {}
 
 def dispatch (st : DState) (fields : List String) : DState × String :=
   match fields with
@@ -17,6 +19,9 @@ def dispatch (st : DState) (fields : List String) : DState × String :=
   | "redir" :: args => (st, (Driver.Redirect.handle args).getD "bad-op")
   | "msg" :: args => (st, (Driver.Msg.handle args).getD "bad-op")
   | "cookie" :: args => (st, (Driver.C17.handle args).getD "bad-op")
+  | "ca" :: args =>
+    let (c', out) := Driver.ClientAuthn.stepLine st.ca args
+    ({ st with ca := c' }, out)
   | "prov" :: args =>
     let (p', out) := Driver.Prov.stepLine st.prov args
     ({ st with prov := p' }, out)
